@@ -200,7 +200,7 @@ def run(ctx):
             ctx.check(ok, "R14.3", m.qualname, lp.iter, loc(m, lp),
                       "%s iterates `%s` instead of the section enum: sections outside that list are never checked" % (
                           nm, norm(lp.iter)[:60]), desc="%s iterates HedSectionKey" % nm)
-    ctx.floor("R14.3", "per-section loops", n_loops, 3)
+    ctx.floor("R14.3", "per-section loops", n_loops, 2)
 
     # ---------------- R14.4
     funcs = [cc] + [sv.methods[nm] for nm in ("_run_validators", "check_attributes", "check_invalid_chars") if nm in sv.methods]
